@@ -59,7 +59,7 @@ func hasMarkerRunes(t *tm.Term) bool {
 func isRegular(t *tm.Term) bool {
 	ok := true
 	t.EachSlot(func(k int, o *tm.Term, i int) {
-		s := strings.Replace(o.S[i], tm.Token(k), "", 1)
+		s := strings.ReplaceAll(o.S[i], tm.Token(k), "")
 		if s == "" {
 			return
 		}
